@@ -222,8 +222,34 @@ class Walker:
                 items.append('G ' + g)
             else:
                 self.expr(t, par, cls, depth, items, env)
+                # a branch of the method body that depends on ANOTHER user parameter (`if weights is None:`):
+                # guards found inside are conditional and must not count as covering
+                others = env.get('__params__', ()) if depth == 0 else ()
+                cond = (not _mentions(t, par)) and any(_mentions(t, o) for o in others if o != par) \
+                    and not _raises_value_or_type_error(st.body)   # a guard of the other parameter skips nothing
+                sub_b, sub_e = [], []
                 for s in st.body:
-                    self.stmt(s, par, cls, depth, items, env)
+                    self.stmt(s, par, cls, depth, sub_b, env)
+                for s in st.orelse:
+                    self.stmt(s, par, cls, depth, sub_e, env)
+                if cond:
+                    def prefix(l):
+                        out = []
+                        for x in l:
+                            if not x.startswith('G '):
+                                break
+                            out.append(x)
+                        return out
+                    pb, pe = prefix(sub_b), prefix(sub_e)
+                    if pb and pb == pe:
+                        # both branches reach the same guards first: unconditional
+                        items.extend(pb)
+                        items.extend(sub_b[len(pb):] + sub_e[len(pe):])
+                    else:
+                        items.extend('G GOpaque' if x.startswith('G ') else x for x in sub_b + sub_e)
+                else:
+                    items.extend(sub_b + sub_e)
+                return
             for s in st.orelse:
                 self.stmt(s, par, cls, depth, items, env)
             return
@@ -447,7 +473,7 @@ def gen_routing(repo=None):
                 for par in params:
                     if par not in PARAMS:
                         continue
-                    items = walker.walk(fn, par, cls, 0)
+                    items = walker.walk(fn, par, cls, 0, {'__params__': tuple(params)})
                     body = '; '.join(items)
                     entries.append(f'  {{| e_two_d := {_b(two_d)}; e_module := "{mod}"; e_method := "{fn.name}"; '
                                    f'e_param := "{par}";\n     e_chain := [{body}] |}}')
